@@ -70,6 +70,7 @@ type planetDir struct {
 	pauses   []pause
 	nanos    bool   // changesets: sub-second part, a function of the sequence
 	style    int    // rendering variant of the state file
+	big      int    // interval kinds: > 0 = a large state file, this many transaction ids in each txn list
 	base     string // Datasource.BaseURL ("" = package default)
 	reqBase  *url.URL
 	basePath string
@@ -197,6 +198,33 @@ func (d *planetDir) render(seq uint64, cur bool) (body string, txnMax, txnQ int)
 	txnQ = txnMax - int(seq%2)
 	tm := "txnMax=" + strconv.Itoa(txnMax) + "\n"
 	tq := "txnMaxQueried=" + strconv.Itoa(txnQ) + "\n"
+	if d.big > 0 {
+		// A busy database: osmosis lists every in-flight transaction id, so the file grows to kilobytes,
+		// and java.util.Properties may put the long lists in front of the keys a reader needs.
+		var al, rl strings.Builder
+		for i := 0; i < d.big; i++ {
+			if i > 0 {
+				al.WriteByte(',')
+				rl.WriteByte(',')
+			}
+			al.WriteString(strconv.Itoa(100000000 + txnMax + 3*i))
+			rl.WriteString(strconv.Itoa(100000000 + txnMax + 3*i + 1))
+		}
+		active, ready := "txnActiveList="+al.String()+"\n", "txnReadyList="+rl.String()+"\n"
+		switch d.style % 5 {
+		case 0: // lists first, the keys a reader needs last
+			body = comment + active + ready + tm + tq + tsl + sn
+		case 1: // timestamp behind one list, sequence behind both
+			body = comment + tq + active + tsl + ready + tm + sn
+		case 2: // sequence early, timestamp last and without final newline
+			body = comment + sn + tm + ready + active + tq + strings.TrimSuffix(tsl, "\n")
+		case 3: // a long comment block in front as well
+			body = comment + "#" + strings.Repeat("replication state written by osmosis; ", 20) + "\n" + active + sn + tq + tm + ready + tsl
+		case 4: // today's key order with long lists
+			body = comment + tq + sn + tsl + ready + tm + active
+		}
+		return body, txnMax, txnQ
+	}
 	switch d.style % 5 {
 	case 0: // minutely file as written today
 		body = comment + tq + sn + tsl + "txnReadyList=\n" + tm + "txnActiveList=" + strconv.Itoa(txnMax-7) + "," + strconv.Itoa(txnMax-3) + "\n"
